@@ -230,6 +230,31 @@ def run(case, df, tmp):
             raise Violation(f"file written as {fname.name} (compress="
                             f"{compress}) cannot be read back: "
                             f"{type(e).__name__}: {e}")
+        # the same path used again in the same process, now for a plain file
+        # with other content (the compressed file removed or left in place)
+        if compress and not fname.name.lower().endswith(".zip"):
+            df2 = pd.DataFrame({"second": [7.25, 8.5, -1.75]})
+            if len(case["iperm"]) % 2 == 0:
+                for z_ in tmp.glob("*.zip"):
+                    z_.unlink()
+            csv.write_csv(df2, fname, {"which": "second frame"}, src,
+                          compress=False, **kw)
+            try:
+                b2, c2 = csv.read_csv(fname)
+            except Exception as e:
+                raise Violation(
+                    f"{fname.name} written compressed, read, then written "
+                    f"as a plain file: the second read raises "
+                    f"{type(e).__name__}: {e}")
+            if list(b2.columns) != ["second"] or \
+                    b2["second"].tolist() != [7.25, 8.5, -1.75] or \
+                    c2.get("which") != "second frame":
+                raise Violation(
+                    f"{fname.name} written compressed, read, then written "
+                    f"as a plain file: the second read returns columns "
+                    f"{list(b2.columns)} and comment 'which' = "
+                    f"{c2.get('which')!r}")
+            labels.append("same-path-reused-in-another-mode")
 
     # ---- data
     if list(back.columns) != case["names"]:
